@@ -63,11 +63,49 @@ mod substream;
 /// cfg-gated `verif_negotiate_protocol`) behind a public function. Adds code only.
 #[cfg(feature = "verif")]
 pub mod verif {
+    pub use super::connection::VerifRawWsPeer;
+
     use crate::{
         error::NegotiationError, multistream_select::Negotiated, types::protocol::ProtocolName,
     };
     use futures::{AsyncRead, AsyncWrite};
     use std::time::Duration;
+
+    /// The crate-private `WebSocketConnection` behind a public wrapper (see its cfg-gated
+    /// `verif_connection_listener`, `verif_raw_dialer`, `verif_start`).
+    pub struct VerifWsConnection(super::connection::WebSocketConnection);
+
+    impl VerifWsConnection {
+        pub async fn listener(
+            stream: tokio::net::TcpStream,
+            keypair: crate::crypto::ed25519::Keypair,
+            connection_id: crate::types::ConnectionId,
+            protocol_set: crate::protocol::ProtocolSet,
+            substream_open_timeout: Duration,
+        ) -> Result<Self, NegotiationError> {
+            super::connection::WebSocketConnection::verif_connection_listener(
+                stream,
+                keypair,
+                connection_id,
+                protocol_set,
+                substream_open_timeout,
+            )
+            .await
+            .map(Self)
+        }
+
+        pub async fn raw_dialer(
+            stream: tokio::net::TcpStream,
+            keypair: crate::crypto::ed25519::Keypair,
+            timeout: Duration,
+        ) -> Result<VerifRawWsPeer, NegotiationError> {
+            super::connection::WebSocketConnection::verif_raw_dialer(stream, keypair, timeout).await
+        }
+
+        pub async fn start(self) -> crate::Result<()> {
+            self.0.verif_start().await
+        }
+    }
 
     /// See `WebSocketConnection::verif_negotiate_protocol`.
     pub async fn negotiate_protocol<S: AsyncRead + AsyncWrite + Unpin>(
